@@ -57,6 +57,11 @@ thorough: tiny + default-size).  Per configuration (mc/c02_core.py), all exhaust
     {a.reset(k0), b.reset(k1), jit(a.reset)(k1), a.step(s0,a0)}; every result must equal the same call on environments
     whose components are their own, earlier results must stay readable and unchanged, the shared argument objects
     must be unmodified.  Signatures `<family>:shared-component-couples-instances`, `constructor-argument-mutated`.
+(5) configurations of one environment class in one process (mc/c02_cross.py): pairs of configurations with
+    transposed shapes / equal cell counts / neighbouring sizes (quick; all tiny and awkward configurations of the
+    family in the thorough tier) are driven one after the other - reset over keys 0..3 and two full-alphabet steps -
+    and must give what each configuration gives ALONE in a freshly spawned interpreter, in both orders.
+    Signature `<family>:result-depends-on-configurations-used-before`.
 Auxiliary: `jax.make_jaxpr(env.step / env.reset).effects` must be empty.
 An `UnexpectedTracerError` anywhere (a tracer kept on `self`/a global by one trace, read by a later one) is the
 violation `<family>:python-state-leaks-tracer`; `lax.scan` refusing the step (carry type changes) is `scan-raises`.
@@ -121,7 +126,7 @@ ORDER = ["bin_pack", "mmst", "robot_warehouse", "rubiks_cube", "pac_man", "lbf",
 REQUIRED = ["n_jit", "n_vmap", "n_vmap1", "n_vmap2", "n_vmap7", "n_scan", "n_scan_full", "n_eager",
             "n_reset_jit", "n_reset_vmap", "n_reset_eager", "n_histories", "n_history_eager_calls",
             "n_trace_probes", "n_argument_checks", "n_instance_calls", "n_effect_checks", "n_held_rechecks",
-            "n_reset_list_vs_vmap", "n_native_resets", "n_native_steps", "n_shared_histories"]
+            "n_reset_list_vs_vmap", "n_native_resets", "n_native_steps", "n_shared_histories", "n_cross_comparisons"]
 
 
 def configurations(tier: str) -> List[Dict[str, str]]:
@@ -166,11 +171,20 @@ def main(tier: str, seed: int) -> int:
     slow_first = sorted(shared, key=lambda e: e["family"] not in c02_core.SLOW_HISTORY)
     tasks = tasks[:4] + [("mc.c02_shared", "check_entry", dict(entry=e, tier=tier, seed=seed, model=e["name"]))
                          for e in slow_first] + tasks[4:]
+    from mc import c02_cross
+
+    for fam, names in c02_cross.PAIRS.items():
+        if only and fam not in only.split(","):
+            continue
+        if tier == "thorough":  # all tiny / awkward quick-tier configurations of the family, catalogue order
+            names = [c.name for c in catalog.CATALOG if c.family == fam and c.kind in ("tiny", "awkward") and c.quick][:6]
+        tasks.append(("mc.c02_cross", "check_family", dict(family=fam, names=list(names), tier=tier, seed=seed,
+                                                           model=f"cross:{fam}")))
     run_tasks(rep, tasks)
     rep.require_positive(*REQUIRED)
     per = rep.coverage["per_model"]
     for m in per:  # every configuration must have exercised every mode
-        if m.get("kind") == "shared-component":
+        if m.get("kind") in ("shared-component", "cross-configuration"):
             continue
         modes = m.get("modes") or {}
         for k in ("n_jit", "n_vmap", "n_scan", "n_eager", "n_reset_eager", "n_histories", "n_trace_probes",
@@ -188,6 +202,10 @@ def main(tier: str, seed: int) -> int:
 def replay(doc: Dict[str, Any]) -> int:
     from mc import c02_core
 
+    if doc.get("replay", doc).get("kind") == "cross":
+        from mc import c02_cross
+
+        return int(c02_cross.replay_case(doc.get("replay", doc)))
     if doc.get("replay", doc).get("kind") == "shared":
         from mc import c02_shared
 
